@@ -15,6 +15,7 @@ type DocOpts struct {
 	Keychain     bool // may create users whose authenticator has no inline hash
 	OddAuth      bool // may create authenticators with odd/missing options
 	OddScopes    bool // may name handler / provider types nobody registered (the builder skips such scopes)
+	EmptyPw      bool // may give a user the hash of the empty password as credential
 	DupUsers     bool // may list the same user name twice, with different credentials, for disjoint scopes
 	Span         bool // the deployment registers the SPAN handler (mirror host unreachable: requests fall through to START)
 	V6           bool // may use IPv6 prefixes
@@ -94,6 +95,11 @@ func GenDoc(r *Rand, o DocOpts) model.Doc {
 			if o.Keychain && r.Chance(25) {
 				a.Options = map[string]string{"group": "g", "key": u.Name}
 				a.KeychainErr = r.Chance(25)
+			}
+			if o.EmptyPw && r.Chance(15) {
+				// the stored credential is the hash of the empty string
+				a.Options = map[string]string{"hash": EmptyPwHash}
+				a.Password = ""
 			}
 			if o.OddAuth && r.Chance(20) {
 				switch r.Intn(3) {
